@@ -376,6 +376,29 @@ func genG20(repo string, w *Out) error {
 	if !wrapped {
 		return fmt.Errorf("net.go Listener.Listen: `if rl, wl := l.ReadLimit, l.WriteLimit; rl > 0 || wl > 0 { ll = ratelimit.NewListener(ll, int64(rl), int64(wl)) }` not found")
 	}
+	// stacking: the rate limiter is wrapped around whatever listener was built before it (the PROXY-protocol reader
+	// included), and the extra listeners of MultiListener get their whole ListenerConfig (limits included)
+	ppPos, rlPos := token.NoPos, token.NoPos
+	rlAround := ""
+	ast.Inspect(li.Body, func(n ast.Node) bool {
+		switch x := n.(type) {
+		case *ast.CompositeLit:
+			if nf.Src(x.Type) == "proxyproto.Listener" && ppPos == token.NoPos {
+				ppPos = x.Pos()
+			}
+		case *ast.CallExpr:
+			if nf.Src(x.Fun) == "ratelimit.NewListener" && len(x.Args) == 3 {
+				rlPos, rlAround = x.Pos(), nf.Src(x.Args[0])
+			}
+		}
+		return true
+	})
+	w.DefBool("ratelimit_wraps_proxyproto", ppPos != token.NoPos && rlPos != token.NoPos && ppPos < rlPos && rlAround == "ll")
+	ml, err := nf.Func("MultiListener.Listen")
+	if err != nil {
+		return err
+	}
+	w.DefBool("multilistener_copies_whole_config", strings.Contains(nf.Src(ml.Body), "l.ListenerConfig = lc.ListenerConfig"))
 	w.DefBool("net_wraps_if_any_positive", true)
 	w.DefBool("net_args_read_then_write", true)
 
